@@ -70,17 +70,38 @@ func reps(g *oracle.G) map[string]graph.Graph {
 			nonUnit.Edges[i] = []byte{1, 2, 255}[i%3]
 		}
 	}
+	// views that are not the identity: a reversed induced-subgraph view, and a view of a view (two different shuffles)
+	rev := make([]int, g.N)
+	for i := range rev {
+		rev[i] = g.N - 1 - i
+	}
+	v1 := make([]int, g.N)
+	v2 := make([]int, g.N)
+	for i := range v1 {
+		v1[i] = (i + 1) % g.N // rotation
+		v2[i] = i ^ 1         // swap neighbours
+		if v2[i] >= g.N {
+			v2[i] = i
+		}
+	}
+	// nested[i] = inner[v2[i]] = base[v1[v2[i]]]: choose base so that the outer view equals g
+	comp := make([]int, g.N)
+	for i := range comp {
+		comp[i] = v1[v2[i]]
+	}
 	return map[string]graph.Graph{
-		"dense-bytes": nonUnit,
-		"dense":       denseOf(g),
-		"sparse":      sparseOf(g),
-		"cocomp":      graph.Complement(graph.Complement(denseOf(g))),
-		"comp-dense":  graph.Complement(denseOf(g.Complement())),
-		"induced":     graph.InducedSubgraph(sparseOf(g), idn),
+		"induced-reversed": graph.InducedSubgraph(sparseOf(g.Induced(invPerm(rev))), rev),
+		"induced-nested":   graph.InducedSubgraph(graph.InducedSubgraph(denseOf(g.Induced(invPerm(comp))), v1), v2),
+		"dense-bytes":      nonUnit,
+		"dense":            denseOf(g),
+		"sparse":           sparseOf(g),
+		"cocomp":           graph.Complement(graph.Complement(denseOf(g))),
+		"comp-dense":       graph.Complement(denseOf(g.Complement())),
+		"induced":          graph.InducedSubgraph(sparseOf(g), idn),
 	}
 }
 
-var repNames = []string{"dense", "sparse", "cocomp", "comp-dense", "induced", "dense-bytes"}
+var repNames = []string{"dense", "sparse", "cocomp", "comp-dense", "induced", "dense-bytes", "induced-reversed", "induced-nested"}
 
 // wellFormed checks the observers of any graph.Graph against each other and returns the graph read through IsEdge.
 func wellFormed(what string, gr graph.Graph) (*oracle.G, error) {
